@@ -181,6 +181,24 @@ def o182(ctx):
     if not v:
         ctx.finding(q2, rr[0].node, "the relative orientation must be R_a^-1 * R_nn (inverse of the query particle's orientation times the "
                     "neighbour's): only this product is unchanged when the whole tomogram is rotated", rr[0].node, m2, witness=v.witness)
+    # what get_nn_rotations hands back: the image of the z axis under each relative orientation, and its zxz Euler angles (phi, theta, psi)
+    REL = T("matmul", T("transpose", particle_R("a:")), particle_R("b:"))
+    outs = r2.ret.items if isinstance(r2.ret, Seq) and len(r2.ret.items) == 2 else None
+    if outs is None or not all(isinstance(o_, Arr) and len(o_.cols) == 3 for o_ in outs):
+        raise Unsupported("get_nn_rotations does not return two three-column arrays", fn2)
+    for label, arr_, want_ in (("the z axis seen through the relative orientation (rot_x, rot_y, rot_z)", outs[0], T("rotapply", REL, T("vec", const(0.0), const(0.0), const(1.0)))),
+                               ("the zxz Euler angles of the relative orientation in degrees (phi, theta, psi)", outs[1], T("as_euler", const("zxz"), REL, const(True)))):
+        for k in range(3):
+            got_ = no_sel(arr_.cols[k])
+            # the rotations of all pairs concatenated: row for row the one relative orientation appended per pair
+            got_ = tm.subst(got_, {n: n.args[1].args[0] for n in tm.walk(got_) if n.op == "call" and n.args[0] == "rot_concatenate" and len(n.args) == 2
+                                   and n.args[1].op == "vec" and len(n.args[1].args) == 1})
+            v = tm.equivalent(got_, T("item", want_, k), samplers=SAM, n=24, tol=1e-7, seed_tag=f"nnrot{k}")
+            ctx.count(1, {"returned": label, "component": k, "equal": bool(v)} if k == 0 else None)
+            if not v:
+                ctx.finding(q2, f"returned component {k} of {label.split(' (')[0]}", f"get_nn_rotations must return {label}; component {k} differs "
+                            f"(it is {tm.show(got_)[:100]})", fn2, m2, witness=v.witness)
+                break
     # both passes enumerate the common feature values identically
     l1 = [e for e in it.events if e.kind == "loop" and e.fn == q]
     l2 = [e for e in it2.events if e.kind == "loop" and e.fn == q2]
@@ -273,4 +291,4 @@ def _obligations():
 
 
 def obligations():
-    return _obligations() + [labels_obligation("C18"), selectors_obligation("C18"), effects_obligation("C18"), plumbing_obligation("C18")]
+    return _obligations() + [labels_obligation("C18"), selectors_obligation("C18"), effects_obligation("C18"), plumbing_obligation("C18"), overrides_obligation("C18"), options_obligation("C18")]
